@@ -152,6 +152,10 @@ func ReaderLazyHandler(k int) Driver { return readerLoop(7, k, -1) }
 
 func readerLoop(buf, lazy, contReads int) Driver {
 	name, expect := fmt.Sprintf("Reader/buf%d", buf), identity
+	copyHandler := lazy == -2
+	if copyHandler {
+		name = "Reader/handler-takes-payload-with-io.Copy"
+	}
 	if contReads >= 0 {
 		name = fmt.Sprintf("Reader/continuation-handler-reads-%d", contReads)
 	}
@@ -194,7 +198,16 @@ func readerLoop(buf, lazy, contReads int) Driver {
 					res.Events = append(res.Events, Event{Kind: "ctl", Op: byte(h.OpCode), Payload: p[:n]})
 					return nil
 				}
-				p, err := io.ReadAll(r)
+				var p []byte
+				var err error
+				if copyHandler {
+					// the handler takes the payload with io.Copy (which prefers the source's WriteTo)
+					var b bytes.Buffer
+					_, err = io.Copy(&b, r)
+					p = b.Bytes()
+				} else {
+					p, err = io.ReadAll(r)
+				}
 				if err != nil {
 					return err
 				}
@@ -280,6 +293,9 @@ func readerLoop(buf, lazy, contReads int) Driver {
 		},
 	}
 }
+
+// ReaderCopyHandler: a Reader loop whose intermediate-control handler takes the payload with io.Copy.
+func ReaderCopyHandler() Driver { return readerLoop(7, -2, -1) }
 
 // ReaderReceiveLoop is the usual receive loop around a Reader: a control frame met at the top
 // level is handed to a handler that takes exactly the announced payload (nothing at all for an
@@ -727,7 +743,7 @@ func All() []Driver {
 	return []Driver{
 		ReaderLoop(1), ReaderLoop(2), ReaderLoop(7), ReaderLoop(512),
 		WithSkipHeaderCheck(ReaderLoop(7)), WithSkipHeaderCheck(ReaderDiscard(1)),
-		ReaderCopy(), ReaderAlternatingBuffers(), ReaderReceiveLoop(), ReaderLazyHandler(0), ReaderLazyHandler(1), ReaderContinuationHandler(1), ReaderContinuationHandler(64),
+		ReaderCopy(), ReaderAlternatingBuffers(), ReaderReceiveLoop(), ReaderCopyHandler(), ReaderLazyHandler(0), ReaderLazyHandler(1), ReaderContinuationHandler(1), ReaderContinuationHandler(64),
 		ReaderDiscard(0), ReaderDiscard(1), ReaderDiscardUTF8(1), ReaderDiscardUTF8(2),
 		NextReaderLoop(), ReadMessageLoop(), ReadSideMessageLoop(),
 		ReadDataLoop("Generic"), ReadDataLoop("Data"), ReadDataLoop("Text"), ReadDataLoop("Binary"),
